@@ -1102,7 +1102,15 @@ func (e *SpecEnv) applySpecFn(sf *SpecFn, argExprs []Expr) SV {
 		if len(sf.Reads) > 0 {
 			// `reads` clause: the listed heap components (of the state the call is evaluated in) are extra arguments
 			rs, rt := e.readsArgs(sf, &n)
-			e.readsFrame("sf_"+mangle(sf.Pkg+"_"+sf.Name), e.fc.tc.sortOf(ret), rs, rt, func(ent *SpecEnv) []string { _, t0 := ent.readsArgs(sf, &n); return t0 }, sorts, args)
+			e.readsFrameArgs("sf_"+mangle(sf.Pkg+"_"+sf.Name), e.fc.tc.sortOf(ret), rs, rt, func(ent *SpecEnv) []string { _, t0 := ent.readsArgs(sf, &n); return t0 }, sorts, args,
+				func(env *SpecEnv) []string { // the actual arguments as rendered in state env.cur (slices: block content, offset, length)
+					var out []string
+					for i, a := range args {
+						_, tt := env.uninterpArg(a, n.resolveType(sf.Params[i].Type))
+						out = append(out, tt...)
+					}
+					return out
+				})
 			sorts, ts = append(rs, sorts...), append(rt, ts...)
 		}
 		name := "sf_" + mangle(sf.Pkg+"_"+sf.Name)
